@@ -99,7 +99,8 @@ Section CountRel.
            | H : (st_count ?a, st_rem ?a) = (st_count ?b, st_rem ?b) |- _ => rewrite H in *; clear H
            end;
     cnt_simpl;
-    first [ apply R_refl | assumption | (eapply R_trans; [eassumption|]; apply R_refl) | exact I ].
+    first [ apply R_refl | assumption | (eapply R_trans; [eassumption|]; apply R_refl)
+          | (eapply R_trans; eassumption) | exact I ].
 
   Ltac head_destruct G :=
     match goal with
@@ -191,6 +192,81 @@ Section CountRel.
     - cnt_close.
   Qed.
 
+  Section StdR.
+    Variable self : N -> state -> nres.
+    Hypothesis Hrf : forall fv s, nres_R (cr s) (run_function P reenter self fv s).
+
+    Lemma minmax_go_R less key_fn : forall l j i best s c, R c (cr s) ->
+      match minmax_go F P reenter self less key_fn l j i best s with
+      | MMOk _ s' => R c (cr s')
+      | MMFail r => nres_R c r
+      end.
+    Proof.
+      induction l as [|[k v] rest IH]; intros j i best s c Hc; cbn [minmax_go]; [exact Hc|].
+      destruct (spush s v) as [s1|] eqn:E1; [|cnt_close].
+      destruct (spush s1 k) as [s2|] eqn:E2; [|cnt_close].
+      pose proof (Hrf key_fn s2) as H.
+      destruct (run_function P reenter self key_fn s2) as [key s3|e s3|ab s3]; cbn [nres_R] in H; try cnt_close.
+      assert (Hc3 : R c (cr s3)) by cnt_close.
+      destruct (vcmp F (st_heap s3) key best) as [[]| |]; cbv beta iota zeta; cbn [nres_R]; try exact Hc3;
+        destruct less; cbn [negb]; cbv beta iota; apply IH; exact Hc3.
+    Qed.
+
+    Lemma make_row_R s k v c : R c (cr s) -> nres_R c (make_row F s k v).
+    Proof.
+      intros Hc. unfold make_row.
+      destruct (salloc s _) as [s3 row] eqn:E3. destruct (salloc s3 _) as [s4 ka] eqn:E4.
+      destruct (tinsert _ _ _ k); [|cnt_close].
+      destruct (salloc s4 _) as [s5 va] eqn:E5.
+      destruct (tinsert _ _ _ v); cnt_close.
+    Qed.
+
+    Lemma native_minmax_R less it kf s : nres_R (cr s) (native_minmax F P reenter self less it kf s).
+    Proof.
+      unfold native_minmax. destruct it; try cnt_close.
+      destruct (hget (st_heap s) a) as [[t| | | | |]|]; try cnt_close.
+      destruct (titer _ t) as [[|[k0 v0] rest]|]; try cnt_close.
+      destruct (spush s v0) as [s1|] eqn:E1; [|cnt_close].
+      destruct (spush s1 k0) as [s2|] eqn:E2; [|cnt_close].
+      pose proof (Hrf kf s2) as H.
+      destruct (run_function P reenter self kf s2) as [key0 s3|e s3|ab s3]; cbn [nres_R] in H; try cnt_close.
+      assert (Hc3 : R (cr s) (cr s3)) by cnt_close.
+      pose proof (@minmax_go_R less kf rest 1 0 key0 s3 _ Hc3) as Hm.
+      destruct (minmax_go F P reenter self less kf rest 1 0 key0 s3) as [i s4|r]; [|exact Hm].
+      destruct (hget (st_heap s4) a) as [[t'| | | | |]|]; try (cbn [nres_R]; exact Hm).
+      destruct (tget _ t' _); [|cbn [nres_R]; exact Hm].
+      apply make_row_R. exact Hm.
+    Qed.
+
+    Lemma sort_keys_R kf : forall l s c, R c (cr s) ->
+      match sort_keys P reenter self kf l s with
+      | SKOk _ s' => R c (cr s')
+      | SKFail r => nres_R c r
+      end.
+    Proof.
+      induction l as [|[k v] rest IH]; intros s c Hc; cbn [sort_keys]; [exact Hc|].
+      destruct (spush s v) as [s1|] eqn:E1; [|cnt_close].
+      destruct (spush s1 k) as [s2|] eqn:E2; [|cnt_close].
+      pose proof (Hrf kf s2) as H.
+      destruct (run_function P reenter self kf s2) as [key s3|e s3|ab s3]; cbn [nres_R] in H; try cnt_close.
+      assert (Hc3 : R c (cr s3)) by cnt_close.
+      specialize (IH s3 c Hc3).
+      destruct (sort_keys P reenter self kf rest s3); exact IH.
+    Qed.
+
+    Lemma native_sorted_R it kf s : nres_R (cr s) (native_sorted F P reenter self it kf s).
+    Proof.
+      unfold native_sorted. destruct it; try cnt_close.
+      destruct (hget (st_heap s) a) as [[t| | | | |]|]; try cnt_close.
+      destruct (titer _ t) as [l|]; [|cnt_close].
+      pose proof (@sort_keys_R kf l s _ (R_refl (cr s))) as Hk.
+      destruct (sort_keys P reenter self kf l s) as [keyed s1|r]; [|exact Hk].
+      destruct (stable_sort _ _ _ _); [|cbn [nres_R]; exact Hk].
+      destruct (salloc s1 _) as [s2 out] eqn:E2.
+      destruct (insert_all _ _ _); cnt_close.
+    Qed.
+  End StdR.
+
   Lemma native_body_R (self : N -> state -> nres) :
     (forall h s, nres_R (cr s) (self h s)) ->
     forall n s, nres_R (cr s) (native_body F P reenter self n s).
@@ -211,9 +287,9 @@ Section CountRel.
       pose proof (Hrf (speek s 1) s1) as H. destruct (run_function _ _ _ _ s1); cnt_close.
     - (* call0 *)
       pose proof (Hrf (speek s 0) s) as H. destruct (run_function _ _ _ _ s); cnt_close.
-    - cnt_close.
-    - cnt_close.
-    - cnt_close.
+    - apply native_minmax_R; exact Hrf.
+    - apply native_minmax_R; exact Hrf.
+    - apply native_sorted_R; exact Hrf.
     - (* to_array *)
       destruct (speek s 0); try cnt_close.
       destruct (hget _ _) as [[]|]; try cnt_close.
